@@ -230,8 +230,9 @@ def check_mesh(cx, dev, where):
             if len(on) < 2:
                 face_len = 0.0
             else:
-                on = sorted(on)
-                seg = LineString([on[0], on[-1]])
+                tdir = np.array([-nrm[1], nrm[0]]) / np.linalg.norm(nrm)
+                proj = [v[0] * tdir[0] + v[1] * tdir[1] for v in on]
+                seg = LineString([on[int(np.argmin(proj))], on[int(np.argmax(proj))]])
                 face_len = seg.intersection(domain.buffer(1e-12 * scale)).length
             checked_edges.add(k)
             cx.cnt("dual_length_checks")
